@@ -310,7 +310,7 @@ func addDocument(d *indexData, ib *ShardBuilder, repoID int, docID uint32) error
 	// calculate branches
 	{
 		mask := d.fileBranchMasks[docID]
-		id := uint32(1)
+		id := uint(1) // a repository has up to 64 branches: a uint32 would wrap to 0 after 32 shifts
 		for mask != 0 {
 			if mask&0x1 != 0 {
 				doc.Branches = append(doc.Branches, d.branchNames[repoID][uint(id)])
